@@ -69,7 +69,11 @@ def run_history(cons, hows, scratch):
             os.environ["HOME"] = d
             args = ["--tags=" + t for t in c["terms"]]
             kw = {}
-            if c["proto"] == "default":
+            if c.get("ini_tags"):                           # configured tags (and protocol) in the project's behave.ini
+                with open("behave.ini", "w") as fh:
+                    fh.write("[behave]\n" + ("" if c["proto"] == "default" else "tag_expression_protocol = %s\n" % c["proto"])
+                             + "tags = " + "\n    ".join(c["ini_tags"]) + "\n")
+            elif c["proto"] == "default":
                 kw["load_config"] = (how == "ini")          # an empty project directory / no config file at all
             elif how == "ini":
                 with open("behave.ini", "w") as fh:
@@ -99,7 +103,7 @@ def history_rows(rid0, cons, hows, scratch):
     under the construction's own protocol is the one made through Configuration in the history"""
     rows = []
     for k, (c, o) in enumerate(zip(cons, run_history(cons, hows, scratch))):
-        row = observe(rid0 + k, "list", c["terms"])
+        row = observe(rid0 + k, "list", c.get("judge_terms") or c["terms"])
         row[PROTO_FIELD[c["proto"]]] = o
         rows.append(row)
     return rows
@@ -166,12 +170,19 @@ def build_inputs(cases, rnd, quick):
                 out.append(("list", args, dict(tag, style=s + 1)))
             args = ["".join(a) for a in c["args"][rnd.randrange(5)]]
             out.append(("text", " " + "  ".join(args) + "  ", dict(tag, style="blanks")))
+            # argument list with blanks next to the commas / at the ends of an argument ("@a, -@b", "a , b", " a,b ")
+            args = ["".join(a) for a in c["args"][rnd.randrange(5)]]
+            sp = [rnd.choice([lambda a: a.replace(",", ", "), lambda a: a.replace(",", " , "), lambda a: " " + a + " ",
+                              lambda a: " " + a.replace(",", " ,") + "  "])(a) for a in args]
+            if len(f) == 1 or rnd.random() < 0.34:
+                out.append(("list", sp, dict(tag, style="list-blanks")))
             args = random_args(f, rnd)
             out.append((("text", " ".join(args), dict(tag, style="random"))))
-            out.append(("list", random_args(f, rnd), dict(tag, style="random")))
+            if not quick or n % 2:
+                out.append(("list", random_args(f, rnd), dict(tag, style="random")))
             if c["mixed"]:
                 mixed = c["mixed"][rnd.randrange(2)]
-                for inp in (rnd.sample(mixed, 3) if quick else mixed):
+                for inp in (rnd.sample(mixed, 2) if quick else mixed):
                     form, value = as_value(inp)
                     out.append((form, value, {"family": "mixed", "f": f}))
         else:
@@ -224,7 +235,10 @@ def report(chk, verdicts, byid, meta):
                 sig += "|form=%s|family=%s" % (row["form"], m.get("family"))
             obs = {p: (row[p]["exc"] or "true on %d of %d subsets" % (sum(row[p]["tt"]), len(row[p]["tt"]))) for p in ("v1", "v2", "auto")}
             hist = ""
-            if m.get("family") == "history":
+            if m.get("family") == "placeholder":
+                hist = " as Configuration(--tags=%s) with behave.ini tags = %s, protocol %s" % (
+                    json.dumps(m["history"][0]["terms"]), json.dumps(m["history"][0]["ini_tags"]), m["history"][0]["proto"])
+            elif m.get("family") == "history":
                 hist = " as construction %d of the history %s" % (m["index"] + 1, json.dumps([[c["proto"], c["terms"]] for c in m["history"]]))
             chk.violation(clause, sig, "input=%s (%s)%s observed %s" % (json.dumps(m["input"]), row["form"], hist, json.dumps(obs, sort_keys=True)),
                           {"form": row["form"], "input": m["input"], "meta": m})
@@ -280,6 +294,24 @@ def run(chk):
             for k, row in enumerate(history_rows(len(rows) + 1, cons, hows, scratch)):
                 rows.append(row)
                 meta[row["id"]] = {"family": "history", "input": cons[k]["terms"], "history": cons, "hows": hows, "index": k}
+        # OLD-STYLE configured tags (ONE group in behave.ini) used through the {config.tags} placeholder on the command
+        # line: the placeholder stands for the configured group, so the construction is judged as the argument list
+        # in which the placeholder is replaced by the configured text
+        groups = []
+        for c in cases:
+            if c["kind"] == "cnf":
+                for s in (0, 1):                            # styles without ':limit'
+                    g = "".join(c["args"][s][0])
+                    if g not in groups:
+                        groups.append(g)
+        for g in groups:
+            for proto in ("v1", "default", "auto_detect"):
+                other = rnd.choice(["-@nor", "@b,~a", "nor"])
+                cmd = rnd.choice([["{config.tags}"], ["{config.tags}", other], [other, "{config.tags}"]])
+                con = {"proto": proto, "terms": cmd, "ini_tags": [g], "judge_terms": [g if t == "{config.tags}" else t for t in cmd]}
+                row = history_rows(len(rows) + 1, [con], ["ini"], scratch)[0]
+                rows.append(row)
+                meta[row["id"]] = {"family": "placeholder", "input": con["judge_terms"], "history": [con], "hows": ["ini"], "index": 0}
     finally:
         shutil.rmtree(scratch, ignore_errors=True)
     TagExpressionProtocol.use(TagExpressionProtocol.DEFAULT)
@@ -299,8 +331,8 @@ def run(chk):
     for m in meta.values():
         fam[m["family"]] = fam.get(m["family"], 0) + 1
     chk.rule = ("CNF formulas up to the bound (TLC, exhaustive; all 5 decoration styles x string/list at design level), per emitted "
-                "formula 2-3 styles x both shapes + a blank variant + 2 random decorations + 3-6 mixed texts; v2 trees x 7 renderings + "
-                "injected old-style operands + 5 '@'-tight renderings + 5 every-operand-in-parentheses renderings (1 text, 4 lists); histories of 2-3 Configuration constructions x 5 protocol settings x 4 "
+                "formula 2-3 styles x both shapes + a blank variant + 1-2 random decorations + 2-6 mixed texts; v2 trees x 7 renderings + "
+                "injected old-style operands + 5 '@'-tight renderings + 5 every-operand-in-parentheses renderings (1 text, 4 lists); OLD-STYLE behave.ini tags used through {config.tags} under v1/default/auto_detect; argument lists with blanks around commas; histories of 2-3 Configuration constructions x 5 protocol settings x 4 "
                 "tag lists (one row per construction); random formulas up to 4x4 over 7 names; every row = one input under V1, V2 and "
                 "AUTO_DETECT with the complete truth table over 2^5 tag subsets; distinct = distinct (shape, input)")
     chk.extra["distinct_nontrivial"] = len({(m["family"] == "probe", json.dumps(m["input"])) for m in meta.values()})
@@ -331,7 +363,7 @@ def judge(chk, rows, diverged=None):
 def replay(chk, payload):
     p = payload["replay"]
     m = p.get("meta") or {}
-    if m.get("family") == "history":
+    if m.get("family") in ("history", "placeholder"):
         scratch = tempfile.mkdtemp(prefix="verif-c08-")
         try:
             row = history_rows(1, m["history"], m["hows"], scratch)[m["index"]]
